@@ -700,6 +700,8 @@ func (r *runner) runDoc(doc json.RawMessage) {
 		r.runParse(arg)
 	case "rule":
 		r.runRule(arg, c.Tx, value, c.Capture, c.Finding)
+	case "ipm":
+		r.runIpm(c.Op == "ipMatchFromFile", arg, value)
 	case "capseq":
 		r.runCapSeq(c.Steps)
 	case "ruleseq":
